@@ -211,6 +211,33 @@ def observe(fd, ref, what, nc, light=False):
                 [bytes(c).hex() for c, _ in got[p * n:(p + 1) * n]], case=nc)
       for c, ex in got:
         require(ex == expect_examples(c), what + ': shuffled_clients examples of %r' % c, case=nc)
+    # using the view (shuffled passes above, with buffers larger than the view) must not change what it exposes
+    require(list(fd.client_ids()) == got_ids, what + ': client_ids() order changed after shuffled passes over the same view',
+            [bytes(i).hex() for i in got_ids], [bytes(i).hex() for i in fd.client_ids()], case=nc)
+    require([c for c, _ in fd.clients()] == [c for c, _ in cl], what + ': clients() order changed after shuffled passes over '
+            'the same view', [bytes(c).hex() for c, _ in cl], [bytes(c).hex() for c, _ in fd.clients()], case=nc)
+    require(list(fd.client_sizes()) == sizes, what + ': client_sizes() changed after shuffled passes over the same view', case=nc)
+    # two live shuffled iterators over one view (two samplers sharing a dataset), interleaved step by step
+    for buf in (1, n + 3):
+      ia, ib = fd.shuffled_clients(buffer_size=buf, seed=5), fd.shuffled_clients(buffer_size=buf, seed=6)
+      pa, pb = [], []
+      for _ in range(n):
+        pa.append(next(ia)[0])
+        pb.append(next(ib)[0])
+      require(sorted(pa) == ids and sorted(pb) == ids, what + ': two interleaved shuffled_clients(buffer=%d) passes over one '
+              'view are not both permutations of it' % buf, [i.hex() for i in ids],
+              [[bytes(c).hex() for c in pa], [bytes(c).hex() for c in pb]], case=nc)
+      alone = [c for c, _ in itertools.islice(fd.shuffled_clients(buffer_size=buf, seed=5), n)]
+      require(pa == alone, what + ': a seeded shuffled pass interleaved with another one differs from the same pass alone',
+              [bytes(c).hex() for c in alone], [bytes(c).hex() for c in pa], case=nc)
+    # bulk get takes any iterable of ids, also one-pass ones
+    sel = [ids[-1], ids[0]] if n > 1 else [ids[0]]
+    for nm, req in (('iter(list)', iter(list(sel))), ('generator', (c for c in sel)), ('map', map(bytes, sel)),
+                    ('tuple', tuple(sel)), ('dict keys', dict.fromkeys(sel).keys())):
+      got = [(c, _ex(ds, what, nc)) for c, ds in fd.get_clients(req)]
+      require([c for c, _ in got] == list(dict.fromkeys(sel)) and all(ex == expect_examples(c) for c, ex in got),
+              what + ': get_clients(%s) does not return the requested clients in request order' % nm,
+              [c.hex() for c in sel], [bytes(c).hex() for c, _ in got], case=nc)
 
 
 def ops_alphabet(th):
@@ -313,8 +340,49 @@ def explore(case):
           'sample': {'root': root, 'states': st['states'], 'transitions': st['transitions'], 'max_depth': st['max_depth']}}
 
 
-SUBS = {'explore': explore}
-TIMEOUTS = {'explore': 3000}
+def order_trace(arg):
+  """Everything order-related a view exposes, for a list of op histories (runs in the parent and in child interpreters)."""
+  table = make_table(arg.get('seed', 0))
+  tmp = tempfile.mkdtemp(prefix='c08o_')
+  out = []
+  try:
+    for hist in arg['histories']:
+      fd = build_root(arg['root'], table, tmp)
+      for op in hist:
+        fd = apply_impl(fd, dec_op(op))
+      n = fd.num_clients()
+      rec = {'ids': [bytes(c).hex() for c in fd.client_ids()], 'clients': [bytes(c).hex() for c, _ in fd.clients()],
+             'sizes': [[bytes(c).hex(), int(k)] for c, k in fd.client_sizes()]}
+      for buf in (1, 2, n + 3):
+        for seed in (0, 5):
+          rec['shuffled_%d_%d' % (buf, seed)] = [bytes(c).hex() for c, _ in
+                                                 itertools.islice(fd.shuffled_clients(buffer_size=buf, seed=seed), 2 * n)]
+      out.append(rec)
+  finally:
+    shutil.rmtree(tmp, ignore_errors=True)
+  return out
+
+
+def other_process(case):
+  """'Iteration order is deterministic': the order of ids / clients / seeded shuffled passes is the same in another
+  interpreter process whose str/bytes hash salt differs (PYTHONHASHSEED is an environment answer; every listed value runs)."""
+  from mc import child
+  arg = {'root': case['root'], 'histories': case['histories'], 'seed': case.get('seed', 0)}
+  here = order_trace(arg)
+  evals = 0
+  for hs in case['hashseeds']:
+    there = child.call('mc.checks.c08_federated_data', 'order_trace', arg, hs)
+    for hist, a, b in zip(case['histories'], here, there):
+      for k in a:
+        require(a[k] == b.get(k), '%s of the view differs between two interpreter processes (PYTHONHASHSEED=%s)' % (k, hs),
+                a[k], b.get(k), case=dict(case, histories=[hist], hashseeds=[hs]))
+      evals += 1
+  return {'evals': evals, 'states': evals, 'transitions': evals, 'traces': evals, 'nontrivial': True,
+          'outcome': [case['root'], here[0]['ids'][:3]]}
+
+
+SUBS = {'explore': explore, 'other_process': other_process}
+TIMEOUTS = {'explore': 3000, 'other_process': 1800}
 
 
 def plan(ctx):
@@ -328,3 +396,7 @@ def plan(ctx):
                       'preprocessors preserve the number of examples']
   ctx.pmap('explore', [{'root': r, 'depth': depth, 'seed': ctx.seed, 'thorough': th}
                        for r in ('mem', 'sql', 'sub_mem', 'sub_sql')], chunk=1)
+  hists = [[], [enc_op(('slice', b'a\x00', None))], [enc_op(('subset', 'S_z'))], [enc_op(('pc', 1)), enc_op(('slice', None, b'b\x00\x00'))],
+           [enc_op(('subset', 'S_all')), enc_op(('pb', 3))]]
+  ctx.pmap('other_process', [{'root': r, 'histories': hists, 'hashseeds': [hs], 'seed': ctx.seed}
+                             for r in ('mem', 'sql', 'sub_mem', 'sub_sql') for hs in ((1, 2, 3, 12345) if th else (1, 2))], chunk=1)
